@@ -615,10 +615,13 @@ def message_tags(members):
     return s
 
 
-def faults(dc, mi, base, thorough, only_in_groups=False, swap_first_only=False):
+def faults(dc, mi, base, thorough, only_in_groups=False, swap_first_only=False, members=None):
     """yield (class, level name, tree, note) - each one differs from a valid instance by
-    exactly one violation of the dictionary."""
-    name, mt, members = dc.msgs[mi]
+    exactly one violation of the dictionary.  members: member list of `base` when it is not the body of
+    message mi (header + trailer)."""
+    name, mt, _members = dc.msgs[mi]
+    if members is None:
+        members = _members
     all_tags = message_tags(members)
     top_tags = set(m["tag"] for m in members)
     nested_only = sorted(all_tags - top_tags, key=int)
@@ -652,6 +655,12 @@ def faults(dc, mi, base, thorough, only_in_groups=False, swap_first_only=False):
                 # -- repeating group given as a plain field
                 yield "group_given_as_field", lv, \
                     replace(base, addr, nodes[:ni] + [[tag, "1"]] + nodes[ni + 1:]), m["name"]
+                # -- repeating group with zero items (goes on the wire as NoXxx=0): a required group (or the
+                #    delimiter group of an item) is then missing, an optional one has a NumInGroup that is not positive
+                zcls = "zero_items_required_group" if (m["req"] == "Y" or (level > 0 and j == 0)) \
+                    else "zero_items_optional_group"
+                if m["req"] != "?":
+                    yield zcls, lv, replace(base, addr, nodes[:ni] + [[tag, []]] + nodes[ni + 1:]), m["name"]
             # -- order inside a group item
             if level > 0 and ni + 1 < len(nodes) and (ni == 0 or not swap_first_only):
                 sw = list(nodes)
@@ -701,6 +710,67 @@ def framings(dc, mt):
     if h is not None:
         out.append(("header_and_trailer_first", lambda t: h + tr_all + t))
     return out
+
+
+ENV_CLASS = {"unknown_tag": "foreign_member", "known_tag_not_in_message": "foreign_member",
+             "member_of_other_container": "foreign_member", "group_only_tag_not_in_message": "foreign_member",
+             "header_group_member_outside_its_group": "foreign_member", "empty_value": "bad_value",
+             "value_outside_enum": "bad_value"}
+
+
+def envelope_faults(dc, mi, thorough):
+    """Structural faults in the header / trailer part, which belongs to every message of the dictionary:
+    plain header / trailer field given as a group, header group given as a plain field or with zero items,
+    and every group-item fault inside the header group(s) (NoHops); bad values of trailer fields.
+    Two carriers: 'complete' (all header and trailer members present) and 'bare' (the minimal body plus the
+    one faulty member)."""
+    name, mt, members = dc.msgs[mi]
+    hdr = header_nodes(dc, mt, True)
+    if hdr is None:
+        return
+    hgroups = [m for m in dc.d.header if m["k"] == "g"]
+    tgroups = [m for m in dc.d.trailer if m["k"] == "g"]
+    tr = trailer_nodes(dc, True)
+    env = hdr + build(hgroups, False, "max", two=True) + tr[:-1] + build(tgroups, False, "max", two=True) + tr[-1:]
+    env_members = list(dc.d.header) + list(dc.d.trailer)
+    if _dups_flat(env_members):
+        return
+    declared = set(m["tag"] for m in env_members)
+    extra = [n for n in env if n[0] not in declared]   # CheckSum when the dictionary has no <trailer>
+    env = [n for n in env if n[0] in declared]
+    trailer_tags = set(m["tag"] for m in dc.d.trailer)
+    body = build(members, False, "min")
+    for cls, lv, tree, note in faults(dc, mi, env, thorough, members=env_members):
+        changed = [n for n in tree if n not in env]
+        if len(changed) != 1:
+            continue  # removals at the top level of the envelope: see header_faults
+        tag = changed[0][0]
+        part = "trailer" if tag in trailer_tags else "header"
+        if lv == "top":
+            if tag not in dc.d.header_tags and tag not in dc.d.trailer_tags:
+                continue  # added foreign tag at message level: same as in the body
+            if cls.startswith("value_outside") or cls == "empty_value":
+                if part == "header":
+                    continue  # header_faults
+                cls2, lv2 = "bad_value", "trailer_field"
+            else:
+                cls2, lv2 = cls, part + "_member"
+        else:
+            cls2 = ENV_CLASS.get(cls, "bad_value" if cls.startswith("value_outside") else cls)
+            lv2 = part + "_group_item"
+        hp = [n for n in tree if n[0] not in trailer_tags]
+        tp = [n for n in tree if n[0] in trailer_tags]
+        yield cls2, lv2, body + changed, note + " (bare: " + cls + ")"
+        yield cls2, lv2, hp + body + tp + extra, note + " (complete: " + cls + ")"
+
+
+def _dups_flat(members):
+    seen = set()
+    for m in members:
+        if m["tag"] in seen:
+            return True
+        seen.add(m["tag"])
+    return False
 
 
 def header_faults(dc, mi, thorough):
@@ -852,6 +922,15 @@ def _work(item):
             k = "fault:" + cls.split(":")[0] + "|" + lv
             res["classes"][k] = res["classes"].get(k, 0) + 1
             record(judge_fault(did, name, mt, "minimal+header", cls, lv, note, tree, v))
+    elif part == "envelope":
+        for cls, lv, tree, note in envelope_faults(dc, mi, thorough_values):
+            v = run_one(tree)
+            if v is None:
+                continue
+            k = "fault:" + cls + "|" + lv
+            res["classes"][k] = res["classes"].get(k, 0) + 1
+            j = judge_fault(did, name, mt, "minimal+envelope", cls, lv, note, tree, v)
+            record(j)
     elif part == "faults_framed":
         # the faults of the minimal instance (all fault values) and the in-group faults of the all-groups
         # instance, placed AFTER framing / trailer tags
@@ -870,6 +949,8 @@ def _work(item):
                     res["base_invalid"] += 1
             for bname, gen in gens:
                 for cls, lv, tree, note in gen:
+                    if cls.startswith("zero_items"):
+                        continue  # judged without framing tags only (own signatures)
                     tree = wrap(tree)
                     v = run_one(tree)
                     if v is None:
@@ -1288,9 +1369,9 @@ def run(ctx):
             continue
         for mi, (name, mt, members) in enumerate(dc.msgs):
             sz = count_positions(members)
-            parts = ["valid", "faults_min", "faults_max", "faults_two", "faults_framed", "header"]
+            parts = ["valid", "faults_min", "faults_max", "faults_two", "faults_framed", "header", "envelope"]
             if ctx.quick and did == "TT":
-                parts = ["valid", "faults_min", "faults_two", "faults_framed", "header"]
+                parts = ["valid", "faults_min", "faults_two", "faults_framed", "header", "envelope"]
             for part in parts:
                 items.append((sz, DICT_IDS.index(did), mi, part))
     # big first for load balance; merged simplest-first below
@@ -1299,8 +1380,8 @@ def run(ctx):
     gc.collect()
     gc.freeze()  # keep the inherited dictionaries out of the workers' collector (less copy-on-write)
     results = ctx.pmap(_work, work, chunk=1)
-    rank = {"valid": 0, "faults_min": 1, "faults_max": 2, "faults_two": 3, "header": 4, "faults_framed": 5}
-    merged = sorted(zip(sched, results), key=lambda x: (x[0][3] == "header", x[0][0], x[0][1], x[0][2], rank[x[0][3]]))
+    rank = {"valid": 0, "faults_min": 1, "faults_max": 2, "faults_two": 3, "header": 4, "faults_framed": 5, "envelope": 6}
+    merged = sorted(zip(sched, results), key=lambda x: (x[0][3] in ("header", "envelope"), x[0][0], x[0][1], x[0][2], rank[x[0][3]]))
     classes = {}
     for (sz, di, mi, part), r in merged:
         ctx.count(states=r["n"], transitions=r["calls"], traces=r["calls"], evaluations=r["calls"],
@@ -1392,7 +1473,8 @@ def run(ctx):
         "in the two real dictionaries)",
         "a message without BeginString(8) is judged on its body only; header faults are injected only into complete "
         "messages (BeginString present); removing BeginString itself is unconstrained",
-        "top-level order of body fields is free; empty repeating groups (count 0), mismatching LENGTH/DATA pairs and "
+        "top-level order of body fields is free; a repeating group with zero items is a fault (required: the group is missing; optional: NumInGroup "
+        "is not positive); mismatching LENGTH/DATA pairs and "
         "conditionally required fields are unconstrained",
         "values: only unquestionable members / non-members of each FIX 4.4 datatype are used (lexical corner cases "
         "belong to C19); enumerated fields: any declared enumerator is valid, a value equal to no enumerator is a "
